@@ -117,7 +117,7 @@ class Vec:
         return [e.m for e in self.els()]
 
     def __repr__(self):
-        body = ', '.join(('--' if e.m else '') + X.show(e.d) for e in self.els())
+        body = ', '.join(('--' if e.m is True else ('' if e.m is False else '?')) + X.show(e.d) for e in self.els())
         return f'{self.kind}<{self.dtype}>[{body}]'
 
 
@@ -158,3 +158,63 @@ def to_fr(v):
     if isinstance(v, float):
         return Fr(v)
     raise TypeError(v)
+
+
+# ---- masks may be data dependent: a mask bit is True / False or a formula (expr.py) --------------
+
+def m_norm(m):
+    from . import expr as X
+    if m is True or m is False:
+        return m
+    if m == X.TRUE:
+        return True
+    if m == X.FALSE:
+        return False
+    return m
+
+
+def m_or(a, b):
+    from . import expr as X
+    if a is True or b is True:
+        return True
+    if a is False:
+        return b
+    if b is False:
+        return a
+    return m_norm(X.f_or(a, b))
+
+
+def m_and(a, b):
+    from . import expr as X
+    if a is False or b is False:
+        return False
+    if a is True:
+        return b
+    if b is True:
+        return a
+    return m_norm(X.f_and(a, b))
+
+
+def m_formula(m):
+    from . import expr as X
+    if m is True:
+        return X.TRUE
+    if m is False:
+        return X.FALSE
+    return m
+
+
+def m_ite(g, a, b):
+    """mask after a store guarded by formula g"""
+    from . import expr as X
+    if a is b or a == b:
+        return a
+    return m_norm(X.f_or(X.f_and(g, m_formula(a)), X.f_and(X.f_not(g), m_formula(b))))
+
+
+def m_conc(m, node=None, what='operation'):
+    """concrete mask bit or AnalysisError"""
+    if m is True or m is False:
+        return m
+    from .repo import AnalysisError
+    raise AnalysisError(f'{what} needs a concrete mask but the mask is data dependent', node)
